@@ -131,6 +131,14 @@ extern size_t g_heap_ra_size;
 	HP_APOS_TGT(8, A, N, c); HP_APOS_TGT(9, A, N, c); HP_APOS_TGT(10, A, N, c); HP_APOS_TGT(11, A, N, c); \
 	HP_APOS_TGT(12, A, N, c); HP_APOS_TGT(13, A, N, c); HP_APOS_TGT(14, A, N, c)
 
+/* the records themselves as a conditional frees-clause list (timer queue owns its records) */
+#define HP_REC_FREE_(k, L, n, c) ((c) && (k) < HP_MAXN && (k) < (n)): HP_E(L, k)
+#define HP_REC_FREES(L, n, c) \
+	HP_REC_FREE_(0, L, n, c); HP_REC_FREE_(1, L, n, c); HP_REC_FREE_(2, L, n, c); HP_REC_FREE_(3, L, n, c); \
+	HP_REC_FREE_(4, L, n, c); HP_REC_FREE_(5, L, n, c); HP_REC_FREE_(6, L, n, c); HP_REC_FREE_(7, L, n, c); \
+	HP_REC_FREE_(8, L, n, c); HP_REC_FREE_(9, L, n, c); HP_REC_FREE_(10, L, n, c); HP_REC_FREE_(11, L, n, c); \
+	HP_REC_FREE_(12, L, n, c); HP_REC_FREE_(13, L, n, c); HP_REC_FREE_(14, L, n, c)
+
 /* ---- the heap object ---- */
 #define HP_HEAP_PRE(H) (PRE_OBJ(H, sizeof(struct ptrheap)) && (H)->compar == HP_COMPAR && \
 	((H)->setreccookie == NULL || (H)->setreccookie == HP_SETRC) && \
